@@ -144,7 +144,8 @@ def cases(enc):
                            min_size=1, max_size=3),
         "style": st.sampled_from(["instance", "instance-interleaved",
                                   "instance-interleaved", "dumps-fresh",
-                                  "dumps-default", "other-encoder-registers"])})
+                                  "dumps-default", "other-encoder-registers",
+                                  "shared-decoder"])})
 
 
 def run_case(case):
@@ -158,10 +159,30 @@ def run_case(case):
         # *another* encoder object is told to treat that class as a quantity
         m.append("QUANTITY_LIKE", Metres(1.5))
         before, ids = snap(m)
+    if style == "shared-decoder":
+        # the caller builds one decoder and hands it to every encoder it makes; the
+        # encoder under test takes its grammar from that decoder
+        from vlib.dialects import grammar_decoder
+        shared = grammar_decoder(enc)[1]
+        cls = type(encoder)
+        kw = {k: v for k, v in cfg.items()}
+        encoder = cls(decoder=shared, **kw)
     texts = []
     for call in range(3):
         try:
             if style == "instance":
+                t = encoder.encode(m)
+            elif style == "shared-decoder":
+                if call:
+                    # between the calls encoders of the other dialects are built around
+                    # the same decoder object (and used once)
+                    for other in ENCODERS:
+                        if other != enc:
+                            try:
+                                type(make_encoder(other))(decoder=shared).encode(
+                                    gv.build_module([["a", 1]]))
+                            except (ValueError, TypeError):
+                                pass
                 t = encoder.encode(m)
             elif style == "instance-interleaved":
                 if call:
